@@ -14,6 +14,10 @@ MCNext == /\ n < MaxEv
                    /\ sess < MaxSess \/ running
                    /\ Start(cfgok, debug, flush, works, ret)
                    /\ hist' = Append(hist, [e |-> "start", cfgok |-> cfgok, debug |-> debug, flush |-> flush, works |-> works, cap |-> 0])
+             \/ \E dev \in {"missing", "null"}, cfgok \in {"ok", "bad"}, ret \in {0, 1} :
+                   /\ sess < MaxSess \/ running
+                   /\ StartSerial(dev, cfgok, ret)
+                   /\ hist' = Append(hist, [e |-> "startserial", cfgok |-> cfgok, debug |-> FALSE, flush |-> FALSE, works |-> FALSE, cap |-> 0])
              \/ Stop /\ hist' = Append(hist, [e |-> "stop", cfgok |-> "", debug |-> FALSE, flush |-> FALSE, works |-> FALSE, cap |-> 0])
              \/ \E c \in {32, 200} : Capacity(c) /\ hist' = Append(hist, [e |-> "cap", cfgok |-> "", debug |-> FALSE, flush |-> FALSE, works |-> FALSE, cap |-> c])
 MCSpec == MCInit /\ [][MCNext]_mcv
